@@ -62,6 +62,10 @@ def cases(rng, tier):
                     pre_f = {"counts": "unique_counts", "diff1": "diff"}.get(q["pre"], q["pre"])
                     if np.dtype(q["dtype"]).kind in "iub" and q["dtype"] in _dtypes_for(pre_f):
                         out.append(q)
+                if f in ("sort", "unique", "unique_counts", "cumsum") and np.dtype(dt).kind == "i" and rng.random() < 0.4:
+                    # the operand was sorted before and its cells were changed IN PLACE afterwards (negated, or overwritten through
+                    # the flat view): whatever was known about the old cells no longer holds
+                    out.append(dict(p, pre=rng.choice(["sort_neg", "sort_flat"]), vseed=rng.randint(0, 9999)))
     return out
 
 
@@ -147,6 +151,15 @@ def _pre(p, obj, is_ra):
             return np.unique(obj, axis=-1, return_counts=True)[1] if is_ra else np.unique(obj, return_counts=True)[1]
         if pre == "sort":
             return obj.sort(axis=-1) if is_ra else np.sort(obj)
+        if pre == "sort_neg":
+            b = obj.sort(axis=-1) if is_ra else np.sort(obj)
+            b *= -1
+            return b
+        if pre == "sort_flat":
+            b = obj.sort(axis=-1) if is_ra else np.sort(obj)
+            flat = b.ravel() if is_ra else b
+            np.invert(flat, out=flat)          # every cell replaced by its complement, through the flat view
+            return b
         if pre == "diff1":
             return np.diff(obj, axis=-1) if is_ra else np.diff(obj)
         return np.cumsum(obj, axis=-1) if is_ra else np.cumsum(obj)
